@@ -77,10 +77,13 @@ def gen_case(rng, tier, index):
         if kind == "retctx":
             c["exit"] = rng.choice(["normal", "raise", "modify-original",
                                     "replace-cfg", "nested", "normal"])
+            # the same misbehaviour from a pass run by PassManager
+            c["pm"] = rng.random() < 0.3
+            c["pm_hook"] = rng.choice(["begin_module", "end_module"])
         for _ in range(n):
             e = [rng.randrange(c["nb"]), rng.randrange(c["nb"] + c["np"]),
                  rng.choice(["Return", "Return", "Branch", "Fallthrough",
-                             "Call"])]
+                             "Call", "Sysret", "Syscall"])]
             c["ops"].append([rng.choice(
                 ["add", "add", "add", "discard", "discard", "update",
                  "clear", "remove", "isub", "ior", "pop"]), e,
@@ -395,6 +398,9 @@ def run_retctx(c, v):
     from gtirb_rewriting._modify.cache import (CFGModifiedError,
                                                ReturnEdgeCache,
                                                make_return_cache)
+    if c.get("pm") and c["exit"] in ("modify-original", "replace-cfg",
+                                     "normal"):
+        return run_retctx_passmanager(c, v)
     blocks = [gtirb.CodeBlock(offset=i, size=1) for i in range(c["nb"])]
     proxies = [gtirb.ProxyBlock() for _ in range(c["np"])]
     ir = gtirb.IR()
@@ -446,6 +452,53 @@ def run_retctx(c, v):
     v.eq(ir.cfg is orig, True, "retctx:cfg-object-not-restored", mode)
     v.eq(type(ir.cfg) is gtirb.CFG, True, "retctx:cfg-not-plain", mode)
     v.eq(set(ir.cfg), model, "retctx:final-edges-differ", mode)
+
+
+def run_retctx_passmanager(c, v):
+    """PassManager.run holds the return-cache context around its passes: a
+    pass that replaces ir.cfg or edits the caller's CFG object is reported
+    and the caller's object is back afterwards"""
+    from gtirb_test_helpers import create_test_module
+    from gtirb_rewriting import Pass, PassManager
+    from gtirb_rewriting._modify.cache import CFGModifiedError
+    ir, m = create_test_module(gtirb.Module.FileFormat.ELF,
+                               gtirb.Module.ISA.X64)
+    orig = ir.cfg
+    b = gtirb.CodeBlock(offset=0, size=1)
+    p = gtirb.ProxyBlock()
+    mode = c["exit"]
+
+    def misbehave(module):
+        if mode == "replace-cfg":
+            module.ir.cfg = gtirb.CFG()
+        elif mode == "modify-original":
+            orig.add(gtirb.Edge(b, p, gtirb.Edge.Label(
+                type=gtirb.Edge.Type.Syscall)))
+
+    class Bad(Pass):
+        def begin_module(self, module, functions, ctx):
+            if c["pm_hook"] == "begin_module":
+                misbehave(module)
+
+        def end_module(self, module, functions):
+            if c["pm_hook"] == "end_module":
+                misbehave(module)
+    pm = PassManager()
+    pm.add(Bad())
+    raised = None
+    try:
+        pm.run(ir)
+    except CFGModifiedError as x:
+        raised = x
+    v.ctr["retctx_passmanager_runs"] = v.ctr.get(
+        "retctx_passmanager_runs", 0) + 1
+    if mode == "normal":
+        v.eq(raised, None, "retctx:passmanager:unexpected-error", repr(raised))
+    else:
+        v.eq(type(raised).__name__, "CFGModifiedError",
+             f"retctx:passmanager:{mode}-not-reported", c["pm_hook"])
+    v.eq(ir.cfg is orig, True, "retctx:passmanager:cfg-object-not-restored",
+         mode)
 
 
 # ---------------------------------------------------------------- ordering
